@@ -7,13 +7,14 @@
    Step.run is such a state.  The empty state satisfies the genesis hypotheses (genesis_hyps_satisfiable). *)
 From stdpp Require Import gmap.
 From RecordUpdate Require Import RecordSet.
-From Coq Require Import ZArith NArith List Bool Strings.Byte.
+From Coq Require Import ZArith NArith List Bool Strings.Byte Strings.String.
 Require Import Regen.Base.Bytes Regen.Base.Calendar Regen.Dec.Dec.
 Require Import Regen.Ledger.Types Regen.Ledger.Msgs Regen.Ledger.Orm Regen.Ledger.BaseMsgs Regen.Ledger.BasketMsgs Regen.Ledger.MarketMsgs Regen.Ledger.Step.
 Require Import Regen.Ledger.Amount Regen.Ledger.MapSum Regen.Ledger.Inv Regen.Ledger.InvIds.
 Require Import Regen.Ledger.InvMarketLib Regen.Ledger.InvMarketOrders Regen.Ledger.InvMarketPrune Regen.Ledger.InvMarketUpdate Regen.Ledger.InvMarket Regen.Ledger.InvMarketHalt.
 Require Import Regen.Ledger.InvAllLib Regen.Ledger.InvAllRun Regen.Ledger.InvAllOrders Regen.Ledger.InvAllProps.
 Require Import Regen.Ledger.InvAdmin Regen.Ledger.InvBase Regen.Ledger.InvBasket.
+Require Import Regen.Ledger.SpellingModel Regen.Ledger.Spelling.
 Import ListNotations RecordSetNotations.
 Local Open Scope Z_scope.
 
@@ -89,3 +90,38 @@ Print Assumptions C01_message_families_partition.
 Example C01_genesis_hypotheses_satisfiable : Inv_run empty_state /\ Inv_all empty_state.
 Proof. exact genesis_hyps_satisfiable. Qed.
 Print Assumptions C01_genesis_hypotheses_satisfiable.
+
+(* ---- address spellings (Ledger/Spelling.v) ----
+   A bech32 address is valid in lower and in upper case.  ValidateBasic of MsgSend compares the sender and recipient
+   STRINGS, so a message naming the sender's own account in the other spelling reaches the handler as a self-send.
+   [deliver_sp sp] is the transaction rule for a message in spelling [sp]; [reaches_sp] closes over begin-blocks and
+   messages in ANY spelling.  The invariants and the conservation equations hold there too. *)
+Theorem C01_every_message_in_every_spelling_preserves_the_invariants : forall sp e s m,
+  Inv_run s -> Inv_run (deliver_sp sp e s m).1 /\ mono_rel s (deliver_sp sp e s m).1.
+Proof. exact deliver_sp_preserves_run. Qed.
+Print Assumptions C01_every_message_in_every_spelling_preserves_the_invariants.
+
+Theorem C01_conservation_in_every_state_reached_with_any_spelling : forall g s,
+  Inv_run g -> reaches_sp g s ->
+  forall bk ba su, batches s !! bk = Some ba -> supplies s !! bk = Some su ->
+    U (su_tradable su) = bal_sum tradable_escrowed bk (balances s) + bb_sum (ba_denom ba) (basket_balances s) /\
+    U (su_retired su) = bal_sum retired_of bk (balances s).
+Proof. exact reachable_sp_conservation. Qed.
+Print Assumptions C01_conservation_in_every_state_reached_with_any_spelling.
+
+Theorem C01_canonical_histories_are_a_special_case : forall s s', reaches s s' -> reaches_sp s s'.
+Proof. exact reaches_reaches_sp. Qed.
+Print Assumptions C01_canonical_histories_are_a_special_case.
+
+Theorem C01_canonical_spelling_is_the_plain_transaction_rule : forall e s m, deliver_sp canonical e s m = deliver e s m.
+Proof. exact deliver_sp_canonical. Qed.
+Print Assumptions C01_canonical_spelling_is_the_plain_transaction_rule.
+
+(* the self-send in two spellings passes the string-level validator and only that one *)
+Example C01_self_send_in_two_spellings_is_accepted :
+  let m := MSend 1%N 1%N [{| sc_denom := b "C01-001-20200101-20210101-001"%string; sc_tradable := b "1.5"%string; sc_retired := b ""%string;
+                              sc_jurisdiction := b ""%string; sc_reason := b ""%string |}] in
+  validate_basic m = false /\
+  validate_basic_sp canonical m = false /\
+  validate_basic_sp {| sp_pair_identical := false; sp_authority_canonical := true |} m = true.
+Proof. exact self_send_passes_only_when_spelled_differently. Qed.
